@@ -127,6 +127,9 @@ class Minimiser:
         return case, final
 
     def run(self, case):
+        if "header_alone" in case:  # one header, one toolchain: nothing to shrink
+            self.evals += 1
+            return copy.deepcopy(case), self.fails(case)
         if "session" in case:
             return self.run_session(case)
         tree = self.ctx.tree
